@@ -16,16 +16,20 @@
    after the wire), and for every operation that publishes no BLOB update the client's mirror
    stays the normalisation (empty text = absent text, as the wire makes it) of a mirror in
    sync with the device (the_connected_client_stays_in_sync).
+   The network client's handshake is proved in the system model too (System/Handshake.v): a
+   client that connects to a server with one driver and asks for the properties ends with the
+   library's policies on its two connections, nothing in flight, and a mirror in sync; and so
+   does every later history of operations that publish no BLOB update (connected_client_history).
    PARTIAL: operations that publish BLOB updates reach the client over two connections whose
-   relative order is not determined; for them, and for the handshake of the network client
-   (registration, the client's own enableBLOB messages), the composition is validated by the
-   system-level correspondence, not proved.  That the system model is the real stack (router,
-   serializer, fragmented byte stream, framing) is the correspondence itself.
+   relative order is not determined; for them (and for several drivers / several clients at
+   once) the composition is validated by the system-level correspondence, not proved.  That the
+   system model is the real stack (router, serializer, fragmented byte stream, framing) is the
+   correspondence itself.
    REFUTED for BLOB payloads (the comparison leaves them out): a definition carries no
    payload (known finding K2). *)
 From Coq Require Import List NArith Bool String.
 Import ListNotations.
-From Indi Require Import Base.Sx Msg.Equality Driver.Model Driver.Props Client.Model Client.Props Client.Update Client.Norm System.Model System.Converge System.Ops System.Deliver.
+From Indi Require Import Base.Sx Msg.Equality Driver.Model Driver.Props Client.Model Client.Props Client.Update Client.Norm System.Model System.Converge System.Ops System.Deliver System.Handshake.
 
 Theorem a_definition_brings_the_entry_in_sync mi d g v :
   vec_on g v = true ->
@@ -149,7 +153,8 @@ Theorem the_connected_client_stays_in_sync s c e d o :
     sy_cls (sstep s (SDrv e o)) = [c'] /\
     net_synced (cl_mirror c') (fst (step d o)) /\ dev_ok (fst (step d o)) /\
     find_dev (sstep s (SDrv e o)) e = Some (fst (step d o)) /\
-    one_client (sstep s (SDrv e o)) c' (d_name (fst (step d o))) /\ cl_in_ctl c' = [] /\ cl_in_blob c' = [].
+    one_client (sstep s (SDrv e o)) c' (d_name (fst (step d o))) /\ cl_in_ctl c' = [] /\ cl_in_blob c' = [] /\
+    cl_ctl c' = cl_ctl c /\ cl_blob c' = cl_blob c.
 Proof. exact (network_client_stays_in_sync s c e d o). Qed.
 Print Assumptions the_connected_client_stays_in_sync.
 
@@ -159,3 +164,28 @@ Theorem processing_commutes_with_the_wire ms mi :
   nm (fold_left (fun mi m => mirror_of (apply mi m)) ms mi).
 Proof. exact (feed_norm ms mi). Qed.
 Print Assumptions processing_commutes_with_the_wire.
+
+(* the network client's handshake, in the composed system model: connect, ask, learn the device, greet it on both
+   connections; afterwards the policies are the library's (control Never, BLOB connection Only), nothing is in
+   flight and the mirror is in sync *)
+Theorem the_handshake_connects_and_syncs s c e d :
+  fresh s c e d -> dev_ok d -> (exists g v, In (g, v) (all_vecs d) /\ vec_on g v = true) ->
+  exists c',
+    sy_cls (sstep s (SHandshake 0)) = [c'] /\
+    one_client (sstep s (SHandshake 0)) c' (d_name d) /\ cl_in_ctl c' = [] /\ cl_in_blob c' = [] /\
+    net_synced (cl_mirror c') d /\ find_dev (sstep s (SHandshake 0)) e = Some d /\
+    cl_ctl c' = cl_ctl c /\ cl_blob c' = cl_blob c.
+Proof. exact (handshake_connects_and_syncs s c e d). Qed.
+Print Assumptions the_handshake_connects_and_syncs.
+
+Theorem connected_client_history ops s c e d :
+  one_client s c (d_name d) -> cl_in_ctl c = [] -> cl_in_blob c = [] ->
+  find_dev s e = Some d -> e <> cl_ctl c -> e <> cl_blob c ->
+  dev_ok d -> net_synced (cl_mirror c) d -> quiet_ops d ops ->
+  exists c',
+    sy_cls (fold_left (fun s o => sstep s (SDrv e o)) ops s) = [c'] /\
+    net_synced (cl_mirror c') (fst (run d ops)) /\
+    find_dev (fold_left (fun s o => sstep s (SDrv e o)) ops s) e = Some (fst (run d ops)) /\
+    cl_in_ctl c' = [] /\ cl_in_blob c' = [].
+Proof. exact (network_client_history ops s c e d). Qed.
+Print Assumptions connected_client_history.
